@@ -140,7 +140,12 @@ def run(ctx, chk):
     model = bm.BusModel(facts)
     for p in model.read_paths():
         if p.get('status') == 'ok' and p['hi'] <= 0x3fff and p['kind'] == 'buffer':
-            if p['index'] == O(64, 'zext', bm.ADDR) and p['buffer'] == 'rom':
+            same = p['index'] == O(64, 'zext', bm.ADDR)
+            if not same and p['index'] is not None and p.get('env') is not None:
+                # any way of writing it: the index equals the address for every address of the path (bit-precise)
+                from .. import bvproof
+                same = bvproof.equal_under(p['index'], O(64, 'zext', bm.ADDR), p['env'], 64) is True
+            if same and p['buffer'] == 'rom':
                 chk.ok('C12.5', 'bank0', sample={'range': '%04x-%04x' % (p['lo'], p['hi']), 'index': fmt(p['index'])})
             else:
                 chk.fail('C12.5', 'bank0', '0x%04x-0x%04x reads %s[%s]: not the fixed bank 0'
